@@ -562,6 +562,14 @@ func (e *escaper) escapeTree(c context, node parse.Node, name string, line int) 
 	// Mangle the template name with the input context to produce a reliable
 	// identifier.
 	dname := mangle(c, name)
+	if dname != name && e.derived[dname] == nil && !e.ns.derivedNames[dname] && e.template(dname) != nil {
+		// A template of the set happens to have the name of the copy: it was
+		// not analysed for this context and must not be taken for the copy.
+		return context{
+			state: stateError,
+			err:   errorf(ErrNoSuchTemplate, node, line, "template name %q is reserved for a context-specific copy of %q", dname, name),
+		}, dname
+	}
 	e.called[dname] = true
 	if out, ok := e.output[dname]; ok {
 		// Already escaped.
@@ -940,6 +948,10 @@ func (e *escaper) commit() {
 		if _, err := tmpl.text.AddParseTree(t.Name(), t.Tree); err != nil {
 			panic("error adding derived template")
 		}
+		if e.ns.derivedNames == nil {
+			e.ns.derivedNames = make(map[string]bool)
+		}
+		e.ns.derivedNames[t.Name()] = true
 	}
 	for n, s := range e.actionNodeEdits {
 		ensurePipelineContains(n.Pipe, s)
